@@ -12,7 +12,7 @@ use bytes::{Bytes, BytesMut};
 use core::mem;
 use derive_builder::Builder;
 
-#[derive(Builder)]
+#[derive(Builder, Clone)]
 #[builder(build_fn(error = "CodecError", validate = "Self::validate"))]
 pub(crate) struct PublishRx {
     #[builder(default)]
@@ -32,8 +32,8 @@ pub(crate) struct PublishRx {
     pub(crate) topic_alias: Option<TopicAlias>,
     #[builder(setter(strip_option), default)]
     pub(crate) message_expiry_interval: Option<MessageExpiryInterval>,
-    #[builder(setter(strip_option), default)]
-    pub(crate) subscription_identifier: Option<SubscriptionIdentifier>,
+    #[builder(setter(custom), default)]
+    pub(crate) subscription_identifier: Vec<SubscriptionIdentifier>,
     #[builder(setter(strip_option), default)]
     pub(crate) correlation_data: Option<CorrelationData>,
     #[builder(setter(strip_option), default)]
@@ -66,6 +66,18 @@ impl PublishRxBuilder {
             None => {
                 self.user_property = Some(UserProperties::new());
                 self.user_property.as_mut().unwrap().push(value);
+            }
+        }
+    }
+
+    fn subscription_identifier(&mut self, value: SubscriptionIdentifier) {
+        match self.subscription_identifier.as_mut() {
+            Some(subscription_identifier) => {
+                subscription_identifier.push(value);
+            }
+            None => {
+                self.subscription_identifier = Some(Vec::new());
+                self.subscription_identifier.as_mut().unwrap().push(value);
             }
         }
     }
